@@ -7,13 +7,19 @@ Pipeline of one run (after the proofs are rebuilt by check.py):
   3. tools/impl/adapters_driver.py runs the REAL adapter (`utxos(address)`) with only the transport stubbed;
   4. pass 2 (coqc, vm_compute): `c20_corr`  = parse_X (render_X u) equals the adapter's output (exact: structure,
      insertion order, exception kind) and `c20_oracle` = the decision procedure of the property (faithfulb, proved
-     sound for `faithful_any`) on the ADAPTER's output against the generated model."""
+     sound for `faithful_any`) on the ADAPTER's output against the generated model.
+Sequences (state carried across calls of ONE adapter instance): a generated run — the harness clock advances, blocks arrive
+(new tip slot, outputs spent and created), the client calls utxos(address) / reads last_block_slot / triggers
+_is_chain_tip_updated() — is executed on one real context (clock and transport stubbed) and, in Coq, by the state
+machine of AdaptersSeq.v over parse_X (render_X ..): `seq_corr` = every observation agrees exactly; `seq_oracleb` = every
+answer is a faithful report (c20_oracle) of a ledger state that is current at the query or was current at an event of
+the run less than the `last_block_slot` memo's ttl (1 s; 0 for Kupo over a live tip and for Blockfrost) earlier."""
 import hashlib, json, os, re, subprocess, time
 from lib import common as C
 from lib.common import cz, cn, chx, cbool, cstr, clist, cpair, copt
 
 PID = 'C20'
-TARGETS = ['props/C20.vo', 'theories/AdaptersOracle.vo']
+TARGETS = ['props/C20.vo', 'theories/AdaptersOracle.vo', 'theories/AdaptersSeqOracle.vo']
 LEVEL = 'proof'
 
 MANIFEST = dict(
@@ -24,7 +30,12 @@ MANIFEST = dict(
          'trip, 56-character unit split, policy.name split; two _refuted lemmas for the known findings (unsupported reference '
          'script kinds; cardano-cli inline datums with non-int/bytes or repeated map keys). The JSON text '
          'served to the real adapters is computed by the Coq render_X; model = adapter output exactly on every case; the '
-         'proved-sound oracle runs on the adapter outputs.',
+         'proved-sound oracle runs on the adapter outputs. Repeated queries of one adapter instance while the service changes: '
+         'state machine of the adapter (last_block_slot memo with ttl, TTL/LRU UTxO cache keyed by (slot, address), '
+         '_is_chain_tip_updated) with theorem C20_seq_fresh: for strictly increasing tip slots every answer of utxos(a) is the '
+         'service\'s answer for the ledger state current at the query or at an event of the run less than the memo ttl '
+         '(1 s) earlier; = the CURRENT answer when the tip is read live or nothing is cached (C20_seq_current); composed with '
+         'the faithfulness theorem (C20_seq_adapters); exact correspondence of whole runs; sound sequence oracle.',
     note='Trusted: Coq kernel+vm_compute; render_X as transcription of the service documentation; hand model parse_X tied by exact '
          'correspondence; json.loads; stub transports; generator. Address text -> Address is opaque (C15). No axioms.',
     technique='Coq proof (fold invariants over dict insertion, permutation-invariant content, nested-inductive round trips for '
@@ -37,7 +48,8 @@ TRUSTED = [
     '(returned structure incl. dict insertion order, exception kind)',
     'Python json.loads on the Coq-produced text (object keys unique and characters plain: json_ok checked per case in Coq); '
     'blockfrost-python and ogmios-python response handling runs for real',
-    'tools/impl/adapters_driver.py (stub transports, attribute-walk dump), tools/props/c20.py (generator, literal printer, '
+    'tools/impl/adapters_driver.py (stub transports, the harness clock replacing time.monotonic/time.time in ticks of '
+    '1/1024 s, attribute-walk dump), tools/props/c20.py (generator, literal printer, '
     'parser of the Coq-printed text, standalone bech32 decoder for the address pool)',
     'blake2b-224 enters the model as a function parameter; per case it is the finite table of hashlib digests of the script '
     'bytes involved',
@@ -48,7 +60,13 @@ ASSUMPTIONS = [
     'pairwise distinct); a failing case gets a region tag only if the faithful model predicts the adapter output exactly',
     'Address.from_primitive(text) is opaque in the model (the text is carried); the returned Address is compared by its '
     're-encoded text and by its raw bytes against an address pool decoded by an independent bech32 decoder',
-    'Blockfrost pagination (>= 100 UTxOs per page), HTTP error paths, caches (TTL/LRU) and spent Kupo matches are outside the model',
+    'Blockfrost pagination (>= 100 UTxOs per page), HTTP error paths, the Kupo datum cache (content-addressed) and spent Kupo '
+    'matches are outside the model',
+    'sequences: the service reports strictly increasing tip slots (no roll-back to an equal or smaller slot: the adapters key '
+    'their cache by slot, so a roll-back can be served from the cache for up to the refetch interval); Kupo wraps a backend '
+    'whose last_block_slot is read live; the allowed staleness is exactly the ttl of the `last_block_slot` memo (1 s) — '
+    'C20_seq_stale_within_memo shows it does occur; cachetools TTLCache/ttl_cache semantics are modelled (expiry now < '
+    'stored + ttl, LRU eviction at maxsize) and tied by the exact correspondence of runs on the harness clock',
     'for cardano-cli the inline datum is compared as a VALUE (structure built by RawPlutusData.from_dict); its byte encoding is C18',
     'int()/bytes.fromhex() are modelled on the text the services emit (decimal digits, hex without whitespace)',
 ]
@@ -61,7 +79,7 @@ REGION_DATUM = 'cli_datum_map_key'
 HEADER0 = '''From Coq Require Import Uint63.
 From Coq Require Import NArith ZArith Ascii String List Bool.
 From Coq Require Import Init.Byte.
-From PyC Require Import Base Cbor Dict Value Json Adapters AdaptersOracle.
+From PyC Require Import Base Cbor Dict Value Json Adapters AdaptersOracle AdaptersSeq AdaptersSeqOracle.
 Import ListNotations.
 Open Scope string_scope.
 Open Scope list_scope.
@@ -325,6 +343,111 @@ def gen_datum_region_case(rng):
     return c
 
 
+# ---------------------------------------------------------------- sequences on one adapter instance
+TICK = 1024                                      # harness clock ticks per second
+DTS = [0, 1, 256, 512, 1023, 1024, 1025, 1536, 2048, 5 * TICK, 20 * TICK, 999 * TICK, 1000 * TICK, 1001 * TICK]
+# refetch_chain_tip_interval handed to the constructor (ticks; None = the constructor's default) and what that default is
+INTERVALS = {'blockfrost': [None], 'kupo': [None, None, 1000 * TICK, TICK, 0],
+             'ogmios_v5': [1000 * TICK, 1000 * TICK, 20 * TICK, 2 * TICK, 512, 0],
+             'ogmios_v6': [None, None, 1000 * TICK, 20 * TICK, 2 * TICK, 512, 0],
+             'cli': [1000 * TICK, 1000 * TICK, 20 * TICK, 2 * TICK, 512, 0]}
+DEFAULT_INTERVAL = {'blockfrost': 0, 'kupo': 10 * TICK, 'ogmios_v6': 1000 * TICK}
+DEFAULT_MAXSIZE = {'blockfrost': 1, 'kupo': 1000, 'ogmios_v5': 10000, 'ogmios_v6': 10000, 'cli': 10000}
+MEMO_TTL = {'blockfrost': 0, 'kupo': 0, 'ogmios_v5': TICK, 'ogmios_v6': TICK, 'cli': TICK}
+POLLS = ('ogmios_v5', 'ogmios_v6', 'cli')
+
+
+def gen_seq(rng, svc):
+    """One run: a first ledger state, then clock ticks, blocks (tip slot grows; per address outputs are spent and created),
+    utxos(address) calls, last_block_slot reads and _is_chain_tip_updated() calls in random order; half of the runs end with
+    the directed tail `query a; block changing a; short wait; query a; long wait; query a`."""
+    addrs = rng.sample(ADDRESSES, rng.choice([1, 1, 2, 2, 3]))
+    interval = rng.choice(INTERVALS[svc])
+    maxsize = None if svc == 'blockfrost' or rng.random() < 0.6 else rng.choice([1, 1, 2, 3])
+
+    def fresh():
+        return gen_utxo(rng, svc, None if rng.random() < 0.7 else 'plutus')
+
+    state = {a: [fresh() for _ in range(rng.choice([0, 1, 1, 2, 2, 3]))] for a in addrs}
+    slot = rng.choice([1, 2, 1000, 70000000, 2**32])
+    responses, index, ledgers = [], {}, []
+
+    def snapshot():
+        by_addr = {}
+        for a in addrs:
+            key = (a, tuple((u['txid'], u['index']) for u in state[a]))
+            if key not in index:
+                index[key] = len(responses)
+                responses.append(dict(svc=svc, addr=a, utxos=list(state[a])))
+            by_addr[a] = index[key]
+        ledgers.append(dict(slot=slot, by_addr=by_addr))
+        return len(ledgers) - 1
+
+    def block(must_change=None):
+        nonlocal slot
+        slot += rng.choice([1, 1, 2, 20, 1000])
+        for a in addrs:
+            if a == must_change or rng.random() < 0.7:
+                keep = [u for u in state[a] if rng.random() < 0.6]
+                new = [fresh() for _ in range(rng.choice([0, 1, 1, 2]))]
+                if a == must_change and len(keep) == len(state[a]) and not new:
+                    new = [fresh()]
+                state[a] = (keep + new)[-4:]
+        return ['block', snapshot()]
+
+    snapshot()
+    ops = []
+    for _ in range(rng.randint(2, 9)):
+        r = rng.random()
+        if r < 0.42:
+            ops.append(['query', rng.choice(addrs)])
+        elif r < 0.66:
+            ops.append(block())
+        elif r < 0.90:
+            ops.append(['tick', rng.choice(DTS)])
+        elif r < 0.95 or svc not in POLLS:
+            ops.append(['tip'])
+        else:
+            ops.append(['poll'])
+    if rng.random() < 0.5:
+        a = rng.choice(addrs)
+        ops += [['query', a], block(a), ['tick', rng.choice([0, 1, 512, 1023, 1024, 1300, 20 * TICK])], ['query', a],
+                ['tick', rng.choice([1024, 2048, 1001 * TICK])], ['query', a]]
+    return dict(seq=1, svc=svc, interval=interval, maxsize=maxsize, addrs=addrs, responses=responses, ledgers=ledgers, ops=ops)
+
+
+def seq_interval(sq):
+    return DEFAULT_INTERVAL[sq['svc']] if sq['interval'] is None else sq['interval']
+
+
+def seq_features(sq):
+    """Measured on the run itself: does a queried address see a different answer than at its previous query, and how long
+    after the block that changed it."""
+    f = dict(requery_after_change=0, requery_within_memo=0, requery_within_interval=0, requery_unchanged=0)
+    now, cur, last = 0, 0, {}
+    changed_at = {}
+    for op in sq['ops']:
+        if op[0] == 'tick':
+            now += op[1]
+        elif op[0] == 'block':
+            for a in sq['addrs']:
+                if sq['ledgers'][op[1]]['by_addr'][a] != sq['ledgers'][cur]['by_addr'][a]:
+                    changed_at[a] = now
+            cur = op[1]
+        elif op[0] == 'query':
+            a = op[1]
+            resp = sq['ledgers'][cur]['by_addr'][a]
+            if a in last:
+                if last[a][1] != resp:
+                    f['requery_after_change'] += 1
+                    f['requery_within_memo'] += now - last[a][0] < MEMO_TTL[sq['svc']]
+                    f['requery_within_interval'] += now - last[a][0] < seq_interval(sq)
+                else:
+                    f['requery_unchanged'] += 1
+            last[a] = (now, resp)
+    return f
+
+
 # ---------------------------------------------------------------- Coq literals
 def hxs(h):
     """bytes literal: big-endian groups of 7 bytes as primitive integers (string / constructor-list literals cost
@@ -480,6 +603,41 @@ def r_impl(res):
     return f'(Ok {clist([r_impl_utxo(o) for o in res["ok"]])})'
 
 
+def r_ledger(sq, k, base):
+    by = sq['ledgers'][k]['by_addr']
+    return 'L ' + clist([f'({ADDRESSES.index(a)}, {base + by[a]})%nat' for a in sq['addrs']])
+
+
+def r_seq(sq, base):
+    """seqcase literal; `base` = position of the run's first response in the shard's `cases`."""
+    ops = []
+    for op in sq['ops']:
+        if op[0] == 'tick':
+            ops.append(f'OTick {cn(op[1])}')
+        elif op[0] == 'block':
+            ops.append(f'OBlock {cn(sq["ledgers"][op[1]]["slot"])} ({r_ledger(sq, op[1], base)})')
+        elif op[0] == 'query':
+            ops.append(f'OQuery {r_addr(op[1])}')
+        else:
+            ops.append('OTip' if op[0] == 'tip' else 'OPoll')
+    mx = DEFAULT_MAXSIZE[sq['svc']] if sq['maxsize'] is None else sq['maxsize']
+    return (f'({COQ_SVC[sq["svc"]]}, {cn(seq_interval(sq))}, {cn(mx)}, {cn(sq["ledgers"][0]["slot"])}, '
+            f'{r_ledger(sq, 0, base)}, {clist(ops)})')
+
+
+def r_iobs(o):
+    if o is None:
+        return 'INone'
+    if 'slot' in o:
+        return f'ISlot {cn(o["slot"])}' if type(o['slot']) is int and o['slot'] >= 0 else 'INone'
+    if 'polled' in o:
+        return f'IPolled {cbool(bool(o["polled"]))}'
+    try:
+        return f'IAns {r_impl(o)}'
+    except Malformed:
+        return 'IAns (Err "MALFORMED-OUTPUT")'
+
+
 # ---------------------------------------------------------------- pass 1: Coq renders the documents
 _TOK = re.compile(r'(\d+)%uint63|(\[)|(\])')
 
@@ -515,38 +673,54 @@ def parse_coq_packed(out):
 SHARD = 96
 
 
-def coq_render(cases):
-    """render_k.v: Definition cases (compiled to render_k.vo, re-used by pass 2) + the documents of every case."""
+def coq_render(groups):
+    """groups: list of (stem, [cases]).  Writes <stem>.v = Definition cases (compiled to <stem>.vo, re-used by pass 2) + the
+    documents of every case; returns per group the list of {key: text}."""
     d = os.path.join(C.WORK, PID)
     os.makedirs(d, exist_ok=True)
     for fn in os.listdir(d):
-        if fn.startswith(('render_', '.render_')):
+        if fn.startswith(('render_', '.render_', 'srender_', '.srender_')):
             os.remove(os.path.join(d, fn))
     pending = []
-    for k in range(0, len(cases), SHARD):
-        part = cases[k:k + SHARD]
-        p = os.path.join(d, f'render_{k // SHARD}.v')
+    for g, (stem, part) in enumerate(groups):
+        p = os.path.join(d, stem + '.v')
         with open(p, 'w') as f:
             f.write(HEADER + 'Definition cases : list case :=\n' + clist([r_case(c) for c in part]) + '.\n'
                     'Eval vm_compute in (map case_docs cases).\n')
-        pending.append((k, len(part), p))
-    out_docs = [None] * len(cases)
+        pending.append((g, len(part), p))
+    out_docs = [None] * len(groups)
     running = []
     while pending or running:
         while pending and len(running) < C.NPROC:
-            k, n, p = pending.pop(0)
-            running.append((k, n, subprocess.Popen(['coqc'] + C.QFLAGS + [p], cwd=d, stdout=subprocess.PIPE,
+            g, n, p = pending.pop(0)
+            running.append((g, n, subprocess.Popen(['coqc'] + C.QFLAGS + [p], cwd=d, stdout=subprocess.PIPE,
                                                     stderr=subprocess.PIPE, text=True)))
-        k, n, pr = running.pop(0)
+        g, n, pr = running.pop(0)
         out, err = pr.communicate()
         if pr.returncode != 0:
             raise RuntimeError('render pass failed: ' + (out + err)[-2000:])
-        docs = parse_coq_packed(out)
+        docs = parse_coq_packed(out) if n else []
         assert len(docs) == n, (len(docs), n)
-        for j, dl in enumerate(docs):
+        res = []
+        for dl in docs:
             assert len(dl) % 2 == 0
-            out_docs[k + j] = {dl[i]: dl[i + 1] for i in range(0, len(dl), 2)}
+            res.append({dl[i]: dl[i + 1] for i in range(0, len(dl), 2)})
+        out_docs[g] = res
     return out_docs
+
+
+def seq_shards(seqs):
+    """Runs grouped so that a shard holds at most ~SHARD responses; a run's responses stay together."""
+    shards, cur, n = [], [], 0
+    for i, sq in enumerate(seqs):
+        if cur and n + len(sq['responses']) > SHARD:
+            shards.append(cur)
+            cur, n = [], 0
+        cur.append(i)
+        n += len(sq['responses'])
+    if cur:
+        shards.append(cur)
+    return shards
 
 
 # ---------------------------------------------------------------- pass 2
@@ -566,6 +740,29 @@ def render_pass2(shard_no, results):
     return body
 
 
+def render_pass2_seq(shard_no, sqs, results):
+    """the runs of sequence shard k (ledgers point into the cases of srender_k.vo) and what the adapter returned per operation"""
+    lits, base = [], 0
+    for sq in sqs:
+        lits.append(r_seq(sq, base))
+        base += len(sq['responses'])
+    impl = []
+    for sq, r in zip(sqs, results):
+        obs = r.get('seq')
+        if not isinstance(obs, list) or len(obs) != len(sq['ops']):
+            obs = [None] * len(sq['ops'])
+        impl.append(clist([r_iobs(o) for o in obs]))
+    body = f'Require Import srender_{shard_no}.\n'
+    body += 'Definition dcase : case := (Blockfrost, "", [], []).\n'
+    body += 'Definition L (l : list (nat * nat)) : ledger := map (fun kj => (addr_at (fst kj), nth (snd kj) cases dcase)) l.\n'
+    body += 'Definition seqs : list seqcase :=\n' + clist(lits) + '.\n'
+    body += 'Definition impl : list (list iobs) :=\n' + clist(impl) + '.\n'
+    body += 'Definition zipped := combine (seq 0 (length seqs)) (combine seqs impl).\n'
+    body += 'Eval vm_compute in (map fst (filter (fun c => negb (seq_corr (fst (snd c)) (snd (snd c)))) zipped)).\n'
+    body += 'Eval vm_compute in (map fst (filter (fun c => negb (seq_oracleb (fst (snd c)) (snd (snd c)))) zipped)).\n'
+    return body
+
+
 def python_side_fail(case, res):
     """Address bytes of the returned object against the independently decoded pool entry."""
     if 'ok' not in res:
@@ -573,30 +770,57 @@ def python_side_fail(case, res):
     return any(o.get('addr_bytes') != ADDR_BYTES[case['addr']] for o in res['ok'])
 
 
-def evaluate(cases, results):
-    mism, ofail, errs = set(), set(), []
+def python_side_fail_seq(sq, res):
+    obs = res.get('seq') or []
+    return any(op[0] == 'query' and isinstance(o, dict) and python_side_fail({'addr': op[1]}, o) for op, o in zip(sq['ops'], obs))
+
+
+def run(cases, seqs=()):
+    """Returns docs/results/mismatch set/oracle-failure set for the single responses, the same four for the runs, errors."""
+    seqs = list(seqs)
+    groups = [(f'render_{k // SHARD}', cases[k:k + SHARD]) for k in range(0, len(cases), SHARD)]
+    sshards = seq_shards(seqs)
+    for n, idx in enumerate(sshards):
+        groups.append((f'srender_{n}', [r for i in idx for r in seqs[i]['responses']]))
+    rendered = coq_render(groups)
+    nord = len(groups) - len(sshards)
+    docs = [d for g in rendered[:nord] for d in g]
+    sdocs = [None] * len(seqs)
+    for n, idx in enumerate(sshards):
+        pos = 0
+        for i in idx:
+            k = len(seqs[i]['responses'])
+            sdocs[i] = rendered[nord + n][pos:pos + k]
+            pos += k
+    payload = [{'svc': c['svc'], 'addr': c['addr'], 'docs': d} for c, d in zip(cases, docs)]
+    payload += [{'seq': 1, 'svc': sq['svc'], 'interval': sq['interval'], 'maxsize': sq['maxsize'], 'responses': sd,
+                 'ledgers': sq['ledgers'], 'ops': sq['ops']} for sq, sd in zip(seqs, sdocs)]
+    allres = C.run_impl('adapters_driver', {'cases': payload})
+    results, sresults = allres[:len(cases)], allres[len(cases):]
+    mism, ofail, smism, sofail, errs = set(), set(), set(), set(), []
     for i, (c, r) in enumerate(zip(cases, results)):
         if 'driver_error' in r:
             errs.append(r['driver_error'] + '\n' + r.get('tb', ''))
         elif python_side_fail(c, r):
             ofail.add(i)
+    for i, (sq, r) in enumerate(zip(seqs, sresults)):
+        if 'driver_error' in r:
+            errs.append(r['driver_error'] + '\n' + r.get('tb', ''))
+        elif python_side_fail_seq(sq, r):
+            sofail.add(i)
     if errs:
-        return mism, ofail, errs
+        return docs, results, mism, ofail, sdocs, sresults, smism, sofail, errs
     shards = [render_pass2(k // SHARD, results[k:k + SHARD]) for k in range(0, len(cases), SHARD)]
+    shards += [render_pass2_seq(n, [seqs[i] for i in idx], [sresults[i] for i in idx]) for n, idx in enumerate(sshards)]
     for sn, (ok, lists, log) in enumerate(C.run_cases(PID, shards, HEADER)):
         if not ok or len(lists) != 2:
             errs.append(log[-1500:])
-            continue
-        mism.update(sn * SHARD + j for j in lists[0]); ofail.update(sn * SHARD + j for j in lists[1])
-    return mism, ofail, errs
-
-
-def run(cases):
-    docs = coq_render(cases)
-    payload = [{'svc': c['svc'], 'addr': c['addr'], 'docs': d} for c, d in zip(cases, docs)]
-    results = C.run_impl('adapters_driver', {'cases': payload})
-    mism, ofail, errs = evaluate(cases, results)
-    return docs, results, mism, ofail, errs
+        elif sn < nord:
+            mism.update(sn * SHARD + j for j in lists[0]); ofail.update(sn * SHARD + j for j in lists[1])
+        else:
+            idx = sshards[sn - nord]
+            smism.update(idx[j] for j in lists[0]); sofail.update(idx[j] for j in lists[1])
+    return docs, results, mism, ofail, sdocs, sresults, smism, sofail, errs
 
 
 def nontrivial(c):
@@ -626,11 +850,54 @@ def gen_cases(ctx, per_svc, n_region):
     return cases
 
 
-def correspond(ctx, per_svc=None):
-    per_svc = per_svc or ctx.n(300, 5000)
+def directed_seq(svc):
+    """Seed-independent run per service with the constructor defaults: two addresses; query both; a block changes the first;
+    1.27 s later query both again; another block changes both; 2 s later query; 1001 s later query."""
+    import random
+    rng = random.Random(f'C20-directed-{svc}')
+    sq = None
+    while sq is None or len(sq['addrs']) != 2 or len(sq['ops']) > 4:
+        sq = gen_seq(rng, svc)
+    a, b = sq['addrs']
+    base = sq['responses'][sq['ledgers'][0]['by_addr'][a]]['utxos'], sq['responses'][sq['ledgers'][0]['by_addr'][b]]['utxos']
+
+    def fresh():
+        return gen_utxo(rng, svc, None)
+    states = [(list(base[0]) + [fresh()], list(base[1]) + [fresh()])]
+    states.append((states[0][0][1:] + [fresh()], states[0][1]))
+    states.append((states[1][0][1:] + [fresh()], states[1][1][1:] + [fresh()]))
+    responses, ledgers = [], []
+    for k, (ua, ub) in enumerate(states):
+        by = {}
+        for addr, us in ((a, ua), (b, ub)):
+            found = [i for i, r in enumerate(responses) if r['addr'] == addr and r['utxos'] == us]
+            if not found:
+                responses.append(dict(svc=svc, addr=addr, utxos=us))
+                found = [len(responses) - 1]
+            by[addr] = found[0]
+        ledgers.append(dict(slot=1000 + 20 * k, by_addr=by))
+    ops = [['query', a], ['query', b], ['block', 1], ['tick', 1300], ['query', a], ['query', b], ['block', 2], ['tick', 2048],
+           ['query', b], ['query', a], ['tick', 1001 * TICK], ['query', a], ['query', b]]
+    return dict(seq=1, svc=svc, interval=None if svc in ('blockfrost', 'kupo', 'ogmios_v6') else 1000 * TICK, maxsize=None,
+                addrs=[a, b], responses=responses, ledgers=ledgers, ops=ops)
+
+
+def gen_seqs(ctx, per_svc):
+    return [directed_seq(svc) for svc in SVCS] + [gen_seq(ctx.rng, svc) for svc in SVCS for _ in range(per_svc)]
+
+
+def seq_nontrivial(sq):
+    f = seq_features(sq)
+    return f['requery_after_change'] > 0
+
+
+def correspond(ctx, per_svc=None, seq_per_svc=None):
+    per_svc = per_svc or ctx.n(270, 5000)
+    seq_per_svc = ctx.n(31, 300) if seq_per_svc is None else seq_per_svc
     cases = gen_cases(ctx, per_svc, ctx.n(6, 40))
+    seqs = gen_seqs(ctx, seq_per_svc)
     t0 = time.time()
-    docs, results, mism, ofail, errs = run(cases)
+    docs, results, mism, ofail, sdocs, sresults, smism, sofail, errs = run(cases, seqs)
     if errs:
         raise RuntimeError('harness failure: ' + errs[0])
     hist = {s: 0 for s in SVCS}
@@ -657,43 +924,87 @@ def correspond(ctx, per_svc=None):
     for r in results:
         if 'err' in r:
             errkinds[r['err']] = errkinds.get(r['err'], 0) + 1
-    distinct = len({C.canon_hash(c) for c in cases if nontrivial(c)})
+    sfeat = dict(runs=len(seqs), operations=0, queries=0, blocks=0, ticks=0, tip_reads=0, polls=0, responses_rendered=0,
+                 requery_after_change=0, requery_within_memo=0, requery_within_interval=0, requery_unchanged=0,
+                 small_cache=0, empty_answers=0, runs_per_service={s: 0 for s in SVCS})
+    for sq in seqs:
+        sfeat['runs_per_service'][sq['svc']] += 1
+        sfeat['operations'] += len(sq['ops'])
+        sfeat['responses_rendered'] += len(sq['responses'])
+        sfeat['small_cache'] += sq['maxsize'] is not None
+        sfeat['empty_answers'] += sum(not r['utxos'] for r in sq['responses'])
+        for op in sq['ops']:
+            sfeat[{'query': 'queries', 'block': 'blocks', 'tick': 'ticks', 'tip': 'tip_reads', 'poll': 'polls'}[op[0]]] += 1
+        for k, v in seq_features(sq).items():
+            sfeat[k] += v
+    distinct = len({C.canon_hash(c) for c in cases if nontrivial(c)}) + len({C.canon_hash(sq) for sq in seqs if seq_nontrivial(sq)})
 
     def pack(i):
         return {'input': cases[i], 'served': docs[i], 'impl': results[i], 'region': classify(cases[i], results[i], i not in mism)}
+
+    def spack(i):
+        return {'input': seqs[i], 'served': sdocs[i], 'impl': sresults[i], 'model_agrees': i not in smism,
+                'region': 'stale-or-unfaithful-answer-in-sequence'}
     return dict(
-        evaluations=len(cases), distinct_nontrivial=distinct,
+        evaluations=len(cases) + len(seqs), distinct_nontrivial=distinct,
         rule='per service: responses of 1-3 UTxO models (0-8 assets over 1-4 policies, names of 0-32 bytes incl. empty, "lovelace", '
              'hex-looking and "."/"#" names, quantities from a boundary set up to 2^70, ADA-only entries, grouped or shuffled '
              'flat order, no datum / datum hash (resolvable or not) / inline datum with a generated Plutus-data value, no script / '
              'Plutus v1-v3 (plain or CBOR-wrapped at the script endpoint) / native script), rendered to JSON text by the Coq '
              'render_X; plus a few responses inside each known-finding region (unsupported reference script kinds; cardano-cli '
              'inline datums with non-int/bytes or repeated map keys); non-trivial = some UTxO has >= 2 '
-             'assets, a datum or a script; distinct by hash',
+             'assets, a datum or a script; distinct by hash. Plus per service runs on ONE adapter instance: 1-3 addresses with '
+             '0-3 UTxOs each, 2-15 operations out of {clock tick of 0 .. 1001 s, block (tip slot +1..+1000; per address outputs '
+             'spent / created), utxos(address), last_block_slot, _is_chain_tip_updated()}, refetch interval from '
+             '{default, 1000 s, 20 s, 2 s, 0.5 s, 0}, utxo_cache_size from {default, 1, 2, 3}; a run is non-trivial if an '
+             'address is queried again after the service changed its answer; plus one seed-independent directed run per service '
+             '(query, block, 1.27 s, query, block, 2 s, query, 1001 s, query over two addresses, constructor defaults)',
         samples=[{'input': cases[0], 'served': docs[0], 'impl': results[0]},
-                 {'input': cases[len(cases) // 2], 'served': docs[len(cases) // 2], 'impl': results[len(cases) // 2]}],
-        per_service=hist, features=feat, impl_error_kinds=errkinds,
-        traces_validated_against_impl=len(cases),
+                 {'input': cases[len(cases) // 2], 'served': docs[len(cases) // 2], 'impl': results[len(cases) // 2]}]
+                + ([{'input': seqs[0], 'impl': sresults[0]}] if seqs else []),
+        per_service=hist, features=feat, sequence_features=sfeat, impl_error_kinds=errkinds,
+        traces_validated_against_impl=len(cases) + len(seqs),
         compared='adapter output (every returned UTxO: tx id, index, re-encoded address text, lovelace, ordered dict of '
                  'ordered dicts, datum hash, datum bytes/structure, script kind+bytes/structure; or exception kind) = '
                  'parse_X (render_X us) exactly; oracle = faithfulb of every modelled UTxO against the adapter output + '
-                 'address bytes against the independently decoded pool',
+                 'address bytes against the independently decoded pool; runs: every observation (answers, tip slots, poll '
+                 'results) = state machine over parse_X (render_X ..) exactly; oracle = every answer is faithfulb to a ledger '
+                 'state current at the query or at an event less than the memo ttl earlier',
         correspond_s=round(time.time() - t0, 1),
-        mismatches=[pack(i) for i in sorted(mism)[:20]],
-        oracle_fail=[pack(i) for i in sorted(ofail, key=lambda i: (in_region(cases[i]) or in_datum_region(cases[i]), i))[:80]],
+        mismatches=[pack(i) for i in sorted(mism)[:20]] + [spack(i) for i in sorted(smism)[:10]],
+        oracle_fail=[pack(i) for i in sorted(ofail, key=lambda i: (in_region(cases[i]) or in_datum_region(cases[i]), i))[:80]]
+                    + [spack(i) for i in sorted(sofail, key=lambda i: len(json.dumps(seqs[i])))[:10]],
     )
 
 
 def search(ctx, mism):
     ctx.rng.seed(f'search-{ctx.seed}')
-    r = correspond(ctx, 800 if ctx.quick else 12000)
+    r = correspond(ctx, 800 if ctx.quick else 12000, 150 if ctx.quick else 2000)
     bad = [f for f in r['oracle_fail'] if f['region'] not in (REGION, REGION_DATUM)]
     return bad[0] if bad else None
 
 
 def replay(ctx, rep):
     case = rep['case']['input']
-    docs, results, mism, ofail, errs = run([case])
+    if case.get('seq'):
+        docs, results, mism, ofail, sdocs, sresults, smism, sofail, errs = run([], [case])
+        print('run (one adapter instance):', json.dumps({k: v for k, v in case.items() if k != 'responses'}))
+        now, cur = 0, 0
+        for op, o in zip(case['ops'], (sresults[0].get('seq') or [None] * len(case['ops'])) if sresults else []):
+            if op[0] == 'tick':
+                now += op[1]
+            elif op[0] == 'block':
+                cur = op[1]
+            elif op[0] == 'query':
+                resp = case['responses'][case['ledgers'][cur]['by_addr'][op[1]]]
+                want = [(u['txid'][:8], u['index']) for u in resp['utxos']]
+                got = [(u['txid'][:8], u['index']) for u in o['ok']] if isinstance(o, dict) and 'ok' in o else o
+                print(f'  t={now / TICK:.3f}s tip={case["ledgers"][cur]["slot"]} utxos({op[1][:16]}..): service reports {want}; adapter returned {got}')
+        if errs:
+            print('harness errors:', errs[0])
+        print('model agrees:', 0 not in smism, ' property oracle holds:', 0 not in sofail)
+        return 1 if sofail else 0
+    docs, results, mism, ofail, _, _, _, _, errs = run([case])
     print('input:', json.dumps(case))
     print('served documents (rendered by Coq):', json.dumps(docs[0]))
     print('implementation:', json.dumps(results[0]))
